@@ -2,7 +2,9 @@
 package main
 
 import (
+	"errors"
 	"fmt"
+	"math"
 	"time"
 	"unsafe"
 
@@ -22,8 +24,66 @@ type call struct {
 
 func (c call) String() string { return fmt.Sprintf("%s(%d,%d)", c.op, c.a, c.b) }
 
+// areg is an AtomicValue[T] seen through small integers: value k stands for vals[k] (0 = the zero
+// value of T), so that one register model serves every element type. What comes back is mapped to
+// its index by ==; a value that is none of vals maps to -99.
+type areg interface {
+	Load() int
+	Store(int)
+	Swap(int) int
+	CompareAndSwap(old, new int) bool
+}
+
+type treg[T comparable] struct {
+	v    sync2.AtomicValue[T]
+	vals []T
+}
+
+func (r *treg[T]) idx(v T) int {
+	for i, x := range r.vals {
+		if x == v {
+			return i
+		}
+	}
+	return -99
+}
+func (r *treg[T]) Load() int                    { return r.idx(r.v.Load()) }
+func (r *treg[T]) Store(k int)                  { r.v.Store(r.vals[k]) }
+func (r *treg[T]) Swap(k int) int               { return r.idx(r.v.Swap(r.vals[k])) }
+func (r *treg[T]) CompareAndSwap(o, n int) bool { return r.v.CompareAndSwap(r.vals[o], r.vals[n]) }
+
+// regTypes: constructors of registers over several element types. In every universe vals[1] and
+// vals[2] are DIFFERENT under == but as alike as the type allows (distinct pointers to equal
+// things, equal text in different errors), and vals[3..] repeat vals[0..2] as values that are EQUAL
+// under == but built separately (a string assembled at run time, a struct copy): CAS must treat
+// them like the originals.
+var regTypes = []struct {
+	name string
+	mk   func() areg
+}{
+	{"int", func() areg { return &treg[int]{vals: []int{0, 1, 2}} }},
+	{"*int", func() areg { a, b := 7, 7; return &treg[*int]{vals: []*int{nil, &a, &b}} }},
+	{"string", func() areg {
+		x := []byte("ab")
+		return &treg[string]{vals: []string{"", string(x), string(x) + "c"}}
+	}},
+	{"struct{*int,string}", func() areg {
+		type st struct {
+			P *int
+			S string
+		}
+		a, b := 7, 7
+		return &treg[st]{vals: []st{{}, {&a, "s"}, {&b, "s"}}}
+	}},
+	{"error", func() areg {
+		return &treg[error]{vals: []error{nil, errors.New("e"), errors.New("e")}}
+	}},
+	{"[2]int", func() areg { return &treg[[2]int]{vals: [][2]int{{}, {0, 1}, {1, 0}}} }},
+	{"float64", func() areg { return &treg[float64]{vals: []float64{0, 1, math.Inf(1)}} }},
+}
+
 type arec struct {
-	v   *sync2.AtomicValue[int]
+	v   areg
 	ops [][]lin.Op
 }
 
@@ -48,7 +108,11 @@ func (r *arec) do(th int, c call) {
 }
 
 func atomScenario(init int, prog [][]call, bound int) schk.Scenario {
-	name := fmt.Sprintf("AtomicValue/init%d|", init)
+	return atomScenarioT(0, init, prog, bound)
+}
+
+func atomScenarioT(ty int, init int, prog [][]call, bound int) schk.Scenario {
+	name := fmt.Sprintf("AtomicValue[%s]/init%d|", regTypes[ty].name, init)
 	for i, p := range prog {
 		if i > 0 {
 			name += " || "
@@ -58,7 +122,7 @@ func atomScenario(init int, prog [][]call, bound int) schk.Scenario {
 	return schk.Scenario{
 		Name: name, Bound: bound, RaceBound: 2,
 		Body: func(s *vrt.Sched) any {
-			r := &arec{v: new(sync2.AtomicValue[int]), ops: make([][]lin.Op, len(prog))}
+			r := &arec{v: regTypes[ty].mk(), ops: make([][]lin.Op, len(prog))}
 			if init >= 0 {
 				r.v.Store(init)
 			}
@@ -239,6 +303,19 @@ func main() {
 			}
 		}
 	}
+	// other element types: every single-thread program of 2 calls and every pair of single calls
+	for ty := 1; ty < len(regTypes); ty++ {
+		for _, init := range []int{-1, 1} {
+			for i, a := range alpha {
+				for _, b := range alpha {
+					scs = append(scs, atomScenarioT(ty, init, [][]call{{a, b}}, -1))
+				}
+				for _, b := range alpha[i:] {
+					scs = append(scs, atomScenarioT(ty, init, [][]call{{a}, {b}}, -1))
+				}
+			}
+		}
+	}
 	pp := []string{"GP", "GYP", "GGPP", "NGP", "GPGP", "NG", "G"}
 	for _, withNew := range []bool{true, false} {
 		for i, a := range pp {
@@ -270,7 +347,7 @@ func main() {
 		return map[string]int64{"distinct_histories_judged_by_porcupine": int64(lin.Distinct())}
 	}
 	schk.Main(r, scs, ev.Pick(r, 45*time.Second, 900*time.Second), func(r *ev.Run) {
-		r.Set("rule", "controlled scheduler over the instrumented sync2 package. AtomicValue[int]: from the empty and from a pre-stored register, every pair of programs of 1-2 calls and every triple of single calls (thorough: also (2,1,1)-call triples and 4 threads of single calls under 3 preemptions) from Load, Store(1|2), Swap(1|2), CompareAndSwap(0->1|1->2|2->1) under ALL interleavings; oracle: porcupine register model (empty reads as zero, Swap returns the replaced value, CAS after the first store succeeds iff current == old, CAS on the empty register unconstrained). Pool[*token]: with and without New (New mints numbered tokens), 2-3 threads of Get/Put programs, pool hit / miss / which pooled item are enumerated environment answers; oracle: a token returned by Get is not held by another Get caller; the race detector runs inside every explored schedule of the race build (this is what decides 'free of data races')")
+		r.Set("rule", "controlled scheduler over the instrumented sync2 package. AtomicValue[int] (and, for every 2-call program and every pair of single calls, AtomicValue over *int, string, struct, error, [2]int, float64 with universes of values that differ under == but are deep-equal): from the empty and from a pre-stored register, every pair of programs of 1-2 calls and every triple of single calls (thorough: also (2,1,1)-call triples and 4 threads of single calls under 3 preemptions) from Load, Store(1|2), Swap(1|2), CompareAndSwap(0->1|1->2|2->1) under ALL interleavings; oracle: porcupine register model (empty reads as zero, Swap returns the replaced value, CAS after the first store succeeds iff current == old, CAS on the empty register unconstrained). Pool[*token]: with and without New (New mints numbered tokens), 2-3 threads of Get/Put programs, pool hit / miss / which pooled item are enumerated environment answers; oracle: a token returned by Get is not held by another Get caller; the race detector runs inside every explored schedule of the race build (this is what decides 'free of data races')")
 		r.Assume("the real sync.Pool's per-P caches and GC clearing are over-approximated by a multiset with nondeterministic hit/miss")
 	})
 }
